@@ -28,7 +28,11 @@ ASSUMPTIONS = ["the elapsed-time banner (End of Run after ... Seconds. and its t
                "default file names embed the instance id; they are compared after replacing the id",
                "file names given with -file in SELECTED_OUTPUT of an earlier input count as user-set names (may survive): names are copied "
                "from the history instance to the new one and only checked to be either the default or a name the history supplied",
-               "a pending DUMP request of an earlier run survives the load on the pinned tree (recorded finding): histories contain no DUMP block"]
+               "DUMP -file of an earlier input renames the dump file (IPhreeqc copies the name into DumpFileName); such a name also counts as user-set",
+               "a follow-up that fails ends the battery (what happens after a failed run on the same instance is C08's subject)",
+               "generated histories avoid, by construction, inputs that crash or hang the pinned tree on a brand-new instance as well "
+               "(INVERSE_MODELING without an Alkalinity master species, -interlayer_d without exchange species, PITZER keyword on a non-Pitzer "
+               "database, column calculations after kinetic/surface/gas entities were left in the cells)"]
 TECHNIQUE = "property-based testing (Hypothesis composite call histories): two-instance differential against a brand-new instance"
 LEVEL_TEXT = ("Exploration: generated call histories (other database families, option-changing runs, failing calls) followed by a reload are "
               "compared channel by channel with a new instance on a probe battery derived from the reset list; sensitivity measured by "
